@@ -1,6 +1,7 @@
 import SJ.Proofs.Facts
 import SJ.Proofs.Edit
 import SJ.Proofs.WalkSafe
+import SJ.Proofs.Bridge
 /-
 C14 — Deletion removes exactly the selected members and all APIs agree after it.
 -/
@@ -36,5 +37,43 @@ theorem C14_fill_is_gap {pj' : PJ} {lo hi : Nat} (hh : hi < 2^56)
 /-- Walkers skip gaps: the object walker makes strict progress and never panics on any tape. -/
 theorem C14_next_element_total (pj : PJ) (o : View) (hl : o.lim ≤ pj.tape.size) :
     SJ.WalkSafe.OkOrErr (View.parse pj o #[] (fuelOf pj)) := SJ.WalkSafe.parse_safe pj o hl
+
+/-- **No reader misreads a gap**: `Advance`, `AdvanceInto`, `AdvanceIter`, `PeekNextTag` started anywhere in a
+    gap behave exactly as if started at its end. -/
+theorem C14_gap_skipped (pj : PJ) (i : Iter) {a b : Nat} (g : Gap pj a b) (hb : b ≤ i.lim) :
+    Iter.advanceLoop pj i a = Iter.advanceLoop pj i b ∧ Iter.advanceIntoLoop pj i a = Iter.advanceIntoLoop pj i b ∧
+    Iter.advanceIterLoop pj i a = Iter.advanceIterLoop pj i b ∧ Iter.peekLoop pj i.lim a = Iter.peekLoop pj i.lim b :=
+  ⟨WalkLayout.advanceLoop_gap pj i g hb, WalkLayout.advanceIntoLoop_gap pj i g hb,
+   WalkLayout.advanceIterLoop_gap pj i g hb, WalkLayout.peekLoop_gap pj i.lim g hb⟩
+
+/-- … and so does `NextElementBytes` (it spends at most one unit of its budget per NOP entry). -/
+theorem C14_gap_skipped_neb (pj : PJ) (lim : Nat) {a b : Nat} (g : Gap pj a b) (hb : b ≤ lim) :
+    ∃ k, k ≤ b - a ∧ ∀ fuel, View.nextElementBytes pj { lim := lim, off := a } (fuel + k) =
+      View.nextElementBytes pj { lim := lim, off := b } fuel := WalkLayout.nextElementBytes_gap pj lim g hb
+
+/-- **After SetNull on a container, every reader agrees on the remaining document.** Take a located, tight
+    document `v`, null the container node `[q, e)`; then any iterator standing on the document in the new tape
+    reads back, through `Advance`/`AdvanceInto`/`NextElementBytes` and the accessors, exactly `v` with that node
+    replaced by `null` — no survivor skipped, nothing resurrected. -/
+theorem C14_setNull_then_read (pj : PJ) (v : LVal) (hok : Ok pj v) (htight : WalkLayout.Tight v) (q e : Nat)
+    (hnode : HasNode q e v) (hqe : q + 2 ≤ e)
+    (hsmall : pj.tape.size < 2^56) (i : Iter) (hoff : i.off = q + 1) (hcur : i.cur.toNat = e)
+    (ht0 : inCase (caseOf swSetNull 0) i.t = false) (ht1 : inCase (caseOf swSetNull 1) i.t = false)
+    (ht : inCase (caseOf swSetNull 2) i.t = true) :
+    ∃ pj' i', i.setNull pj = .ok (pj', i') ∧
+      ∀ (j : Iter) (fuel : Nat), WalkLayout.OnNode pj' (substV q (.null q) v) j → 2 * (j.lim - j.off) + 2 < fuel →
+        owalkValue pj' j fuel = .ok (WalkLayout.toOVal (substV q (.null q) v)) := by
+  obtain ⟨pj', i', h1, h2, _⟩ := setNull_container_doc pj v hok q e hnode hqe hsmall i hoff hcur ht0 ht1 ht
+  refine ⟨pj', i', h1, fun j fuel hon hf => ?_⟩
+  exact WalkLayout.owalkValue_node pj' _ j fuel h2 (WalkLayout.subst_tight q (.null q) rfl (by simp [WalkLayout.Tight]) v htight) hon hf
+
+/-- Why "tight" is stated: `NextElementBytes` (and `Parse`/`Map` built on it) reads the value at key+2 without
+    skipping NOPs, while `ForEach` skips them; on a tape with a NOP between a key and its value — which no parse,
+    edit or deletion produces — the two disagree. -/
+theorem C14_key_value_gap_misread :
+    Ok WalkLayout.cexPJ WalkLayout.cexDoc ∧ WalkLayout.toOMems (.cons 1 [97] (.int 5 4) .nil) = [(#[97], .int 5)] ∧
+    owalkObj WalkLayout.cexPJ { lim := 7, off := 1 } [] (fuelOf WalkLayout.cexPJ) = .ok [] ∧
+    (match View.forEach WalkLayout.cexPJ [] (View.iter { lim := 7, off := 1 }) 0 #[] (fuelOf WalkLayout.cexPJ) with
+      | .ok cbs => cbs.size == 1 | _ => false) = true := WalkLayout.neb_gap_counterexample
 
 end SJ.Properties.C14
